@@ -31,7 +31,7 @@ func init() {
 			"all strings of length <=6 / <=8 over the transformation's own escape alphabet, i.e. every truncation of every escape at every offset; " +
 			"every alphabet string of length <=4 / <=5 with one position replaced by each of the 256 byte values; " +
 			"sandwiches head+run+tail (head <=1 symbol, run of 0..40, 63..65, 127..129, 255..257, 1023..1025, 4096, 65535..65537 and (thorough) 1M copies of a filler, every tail of <=3 / <=4 alphabet symbols, <=1 for the runs >= 65535); for htmlEntityDecode every &name / &name; with 1..3 / 1..4 ASCII letters); " +
-			"part B: every list of <=2 of the 34 names and every list of <=3 / <=4 names over a 6 / 8 name alphabet, as a multiMatch rule and as a plain rule, x every input of <=2 / <=3 tokens of a 13-token alphabet; " +
+			"part B: every list of <=2 of the 34 names and every list of <=3 / <=4 names over a 7 / 9 name alphabet (with lowercase / uppercase, so that a list can come back to an earlier value), as a multiMatch rule and as a plain rule, x every input of <=2 / <=3 tokens of a 13-token alphabet; " +
 			"a case is non-trivial when the transformation (or the list) produced a value different from its input; distinct_nontrivial counts the first 60000 of them per worker, the counter nontrivial_cases counts all",
 		Assumptions: []string{
 			"a transformation that returns an error has returned normally; the engine then keeps the previous value, so output and change flag are not judged in that case",
